@@ -78,18 +78,18 @@ class _ScandirProxy:
 
 
 def _worker_step(step: Dict[str, Any]) -> Dict[str, Any]:
+    """One run of the program inside this process: ``main.main`` with ``sys.argv`` set (so the
+    argument parsing is the real one), stdout/stderr captured, directory listings reordered."""
+    import contextlib
+    import tempfile
+
     import aas_core_codegen.main as m  # the tree under test (PYTHONPATH)
 
-    target = {t.value: t for t in m.Target}[step["target"]]
-    params = m.Parameters(
-        model_path=pathlib.Path(step["model"]),
-        target=target,
-        snippets_dir=pathlib.Path(step["snippets"]),
-        output_dir=pathlib.Path(step["out"]),
-    )
     out, err = io.StringIO(), io.StringIO()
     mode = step.get("listing")
     real_scandir, real_listdir = os.scandir, os.listdir
+    cache_dir = pathlib.Path(tempfile.gettempdir())
+    cache_before = any(cache_dir.glob("aas-core-codegen-*/model-*.pickle"))
     if mode:
         def scandir(path: Any = ".") -> Any:
             return _ScandirProxy(real_scandir(path), mode)
@@ -98,15 +98,22 @@ def _worker_step(step: Dict[str, Any]) -> Dict[str, Any]:
             return [e.name for e in _ScandirProxy(real_scandir(path), mode)]
 
         os.scandir, os.listdir = scandir, listdir  # type: ignore
+    saved_argv = sys.argv
+    sys.argv = ["aas-core-codegen", "--model_path", step["model"], "--snippets_dir", step["snippets"], "--output_dir", step["out"], "--target", step["target"]]
     try:
-        try:
-            rc: Any = m.execute(params, stdout=out, stderr=err)
-        except BaseException as e:  # noqa
-            rc = f"crash:{type(e).__name__}"
-            err.write("".join(traceback.format_exception_only(type(e), e)))
+        with contextlib.redirect_stdout(out), contextlib.redirect_stderr(err):
+            try:
+                rc: Any = m.main(prog="aas-core-codegen")
+            except SystemExit as e:
+                rc = e.code
+            except BaseException as e:  # noqa
+                # what the interpreter does with an uncaught exception: traceback, exit status 1
+                rc = 1
+                err.write("Traceback (most recent call last):\n" + "".join(traceback.format_exception_only(type(e), e)))
     finally:
+        sys.argv = saved_argv
         os.scandir, os.listdir = real_scandir, real_listdir  # type: ignore
-    return {"rc": rc, "stdout": out.getvalue(), "stderr": err.getvalue()}
+    return {"rc": rc, "stdout": out.getvalue(), "stderr": err.getvalue(), "cache_before": cache_before}
 
 
 def _worker_main(spec_path: str, result_path: str) -> int:
@@ -625,39 +632,6 @@ def _env(hashseed: str, tmpdir: pathlib.Path) -> Dict[str, str]:
     return env
 
 
-def run_cli(case: Case, snippets: pathlib.Path, out: pathlib.Path, hashseed: str, tmpdir: pathlib.Path, module: str = "aas_core_codegen.main") -> Dict[str, Any]:
-    tmpdir.mkdir(parents=True, exist_ok=True)
-    cmd = [PY, "-m", module, "--model_path", str(case.model_path), "--snippets_dir", str(snippets), "--output_dir", str(out), "--target", case.target]
-    proc = subprocess.run(cmd, env=_env(hashseed, tmpdir), stdout=subprocess.PIPE, stderr=subprocess.PIPE, timeout=RUN_TIMEOUT, cwd=str(tmpdir))
-    return {"rc": proc.returncode, "stdout": proc.stdout.decode("utf-8", "backslashreplace"), "stderr": proc.stderr.decode("utf-8", "backslashreplace")}
-
-
-def run_inproc(steps: List[Dict[str, Any]], hashseed: str, tmpdir: pathlib.Path, workdir: pathlib.Path) -> List[Dict[str, Any]]:
-    tmpdir.mkdir(parents=True, exist_ok=True)
-    workdir.mkdir(parents=True, exist_ok=True)
-    spec = workdir / "spec.json"
-    res = workdir / "result.json"
-    spec.write_text(json.dumps({"steps": steps}))
-    proc = subprocess.run(
-        [PY, str(pathlib.Path(__file__).resolve()), "worker", str(spec), str(res)],
-        env=_env(hashseed, tmpdir),
-        stdout=subprocess.PIPE,
-        stderr=subprocess.PIPE,
-        timeout=RUN_TIMEOUT,
-        cwd=str(workdir),
-    )
-    if proc.returncode != 0 or not res.exists():
-        raise RuntimeError(f"in-process worker failed (rc {proc.returncode}): {proc.stderr.decode(errors='replace')[-800:]}")
-    return json.loads(res.read_text())
-
-
-def normalise(text: str, out: pathlib.Path, snippets: pathlib.Path, canonical_snippets: pathlib.Path) -> str:
-    text = text.replace(str(out), "<out>")
-    if snippets != canonical_snippets:
-        text = text.replace(str(snippets), str(canonical_snippets))
-    return text
-
-
 def copy_snippets(src: pathlib.Path, dst: pathlib.Path, order: str, rng: random.Random) -> None:
     """Copy a snippets tree creating the entries in a chosen order."""
     files = sorted(p.relative_to(src).as_posix() for p in src.rglob("*") if p.is_file())
@@ -673,186 +647,6 @@ def copy_snippets(src: pathlib.Path, dst: pathlib.Path, order: str, rng: random.
 
 def natural_listing(d: pathlib.Path) -> List[str]:
     return [p.relative_to(d).as_posix() for p in d.glob("**/*")]
-
-
-# --------------------------------------------------------------------------- variations
-
-AXES = ["hashseed", "outloc", "prepop", "listing", "snipcopy", "cache", "inproc", "after", "module"]
-
-
-def _is_default(axis: str, v: Any) -> bool:
-    return v in (None, False, "0", 0, "")
-
-
-class Runner:
-    """Runs references and variations of cases under ``ctx.scratch()`` and judges them."""
-
-    def __init__(self, ctx: Ctx) -> None:
-        self.ctx = ctx
-        self.root = ctx.scratch() / "runs"
-        self.root.mkdir(parents=True, exist_ok=True)
-        self.refs: Dict[str, Dict[str, Any]] = {}
-        self.counter = 0
-        self.pool = concurrent.futures.ThreadPoolExecutor(max_workers=WORKERS)
-
-    def close(self) -> None:
-        self.pool.shutdown(wait=True)
-
-    def _dir(self, tag: str) -> pathlib.Path:
-        self.counter += 1
-        d = self.root / f"{self.counter:05d}-{re.sub(r'[^A-Za-z0-9_.]+', '_', tag)[:40]}"
-        d.mkdir(parents=True)
-        return d
-
-    # ---- reference: CLI, PYTHONHASHSEED=0, fresh output directory, fresh temp directory
-    def reference(self, case: Case, d: pathlib.Path) -> Dict[str, Any]:
-        out = d / "out"
-        res = run_cli(case, case.snippets, out, "0", d / "tmp")
-        res["tree"] = tree_digest(out)
-        res["stdout"] = normalise(res["stdout"], out, case.snippets, case.snippets)
-        res["stderr"] = normalise(res["stderr"], out, case.snippets, case.snippets)
-        res["dir"] = str(d)
-        return res
-
-    def references(self, cases: Sequence[Case]) -> None:
-        todo = []
-        for c in cases:
-            if c.id not in self.refs and c.id not in [t.id for t in todo]:
-                todo.append(c)
-        # directories are allotted sequentially (deterministic names), runs in parallel
-        futs = {c.id: self.pool.submit(self.reference, c, self._dir("ref-" + c.id)) for c in todo}
-        for c in todo:
-            self.refs[c.id] = futs[c.id].result()
-
-    # ---- preparation of one variation (sequential, cheap): returns a closure to run in the pool
-    def prepare(self, case: Case, var: Dict[str, Any]) -> Dict[str, Any]:
-        """Creates directories / pre-populates; returns the plan."""
-        ref = self.refs[case.id]
-        d = self._dir("var-" + case.id)
-        rng = random.Random(var.get("rseed", 0))
-        out = d / ("out" if not var.get("outloc") else "another output-dir with a longer näme/nested/deeper/o")
-        snippets = case.snippets
-        if var.get("snipcopy"):
-            snippets = d / ("sn_" + var["snipcopy"])
-            copy_snippets(case.snippets, snippets, var["snipcopy"], rng)
-        pre: Dict[str, str] = {}
-        obstructed = None
-        pp = var.get("prepop")
-        if pp:
-            out.mkdir(parents=True)
-            if pp == "stale":
-                # the output of a *different* model for the same target + foreign files
-                donor = var.get("donor")
-                if donor and donor in self.refs:
-                    src = pathlib.Path(self.refs[donor]["dir"]) / "out"
-                    if src.is_dir():
-                        shutil.copytree(src, out, dirs_exist_ok=True)
-                (out / "STALE.txt").write_text("left over\n")
-                (out / "stale_dir").mkdir(exist_ok=True)
-                (out / "stale_dir" / "old.bin").write_bytes(b"\x00\xff stale")
-                # every owned file exists already with other content
-                for rel, dg in ref["tree"].items():
-                    if dg.startswith("file:"):
-                        p = out / rel
-                        p.parent.mkdir(parents=True, exist_ok=True)
-                        p.write_text("stale content of " + rel + "\n" * 50)
-            elif pp == "readonly":
-                (out / "READONLY.txt").write_text("left over, read-only\n")
-                os.chmod(out / "READONLY.txt", 0o444)
-                owned = sorted(rel for rel, dg in ref["tree"].items() if dg.startswith("file:"))
-                for rel in owned[:3]:
-                    p = out / rel
-                    p.parent.mkdir(parents=True, exist_ok=True)
-                    p.write_text("read-only stale content\n")
-                    os.chmod(p, 0o444)
-                (out / "ro_dir").mkdir()
-                (out / "ro_dir" / "x").write_text("x")
-                os.chmod(out / "ro_dir", 0o555)
-            elif pp == "obstruct":
-                dirs = sorted(rel for rel, dg in ref["tree"].items() if dg == "dir")
-                files = sorted(rel for rel, dg in ref["tree"].items() if dg.startswith("file:"))
-                if dirs:
-                    top = dirs[0].rstrip("/").split("/")[0]
-                    (out / top).write_text("a file where a directory is expected\n")
-                    obstructed = top
-                elif files:
-                    (out / files[0]).mkdir(parents=True)
-                    obstructed = files[0]
-            pre = tree_digest(out)
-        tmpdir = pathlib.Path(ref["dir"]) / "tmp" if var.get("cache") else d / "tmp"
-        return {"case": case, "var": var, "dir": d, "out": out, "snippets": snippets, "pre": pre, "tmpdir": tmpdir, "obstructed": obstructed}
-
-    def execute(self, plan: Dict[str, Any]) -> Dict[str, Any]:
-        case: Case = plan["case"]
-        var = plan["var"]
-        hs = str(var.get("hashseed", "0"))
-        if var.get("inproc"):
-            steps = []
-            after = var.get("after")
-            if after:
-                steps.append({"model": after["model_path"], "snippets": after["snippets"], "target": after["target"], "out": str(plan["dir"] / "out_after")})
-            step = {"model": str(case.model_path), "snippets": str(plan["snippets"]), "target": case.target, "out": str(plan["out"]), "listing": var.get("listing")}
-            steps.append(step)
-            if var.get("repeat"):
-                steps.append(dict(step, out=str(plan["dir"] / "out_repeat")))
-            results = run_inproc(steps, hs, plan["tmpdir"], plan["dir"] / "work")
-            res = results[len(steps) - (2 if var.get("repeat") else 1)]
-            res["more"] = []
-            if var.get("repeat"):
-                r2 = results[-1]
-                o2 = plan["dir"] / "out_repeat"
-                r2["tree"] = tree_digest(o2)
-                r2["stdout"] = normalise(r2["stdout"], o2, plan["snippets"], case.snippets)
-                r2["stderr"] = normalise(r2["stderr"], o2, plan["snippets"], case.snippets)
-                res["more"].append(r2)
-        else:
-            res = run_cli(case, plan["snippets"], plan["out"], hs, plan["tmpdir"], module=var.get("module") or "aas_core_codegen.main")
-        res["tree"] = tree_digest(plan["out"])
-        res["stdout"] = normalise(res["stdout"], plan["out"], plan["snippets"], case.snippets)
-        res["stderr"] = normalise(res["stderr"], plan["out"], plan["snippets"], case.snippets)
-        return res
-
-    # ---- the oracle proper: the statement of C22 for one (reference, variation) pair
-    def judge(self, plan: Dict[str, Any], res: Dict[str, Any]) -> List[Tuple[str, str]]:
-        case: Case = plan["case"]
-        var = plan["var"]
-        ref = self.refs[case.id]
-        bad: List[Tuple[str, str]] = []
-        if plan["obstructed"] is not None:
-            graceful = (
-                res["rc"] == 1
-                and "Traceback" not in res["stderr"]
-                and plan["obstructed"].split("/")[0] in res["stderr"]
-                and res["stderr"].count("\n* ") >= 1
-            )
-            if case.failing or (res["rc"] == ref["rc"] and res["stdout"] == ref["stdout"] and res["stderr"] == ref["stderr"]):
-                return bad  # the obstruction was never reached / did not matter
-            bad.append(("obstructed-path" if graceful else "obstructed-path-crash", f"a pre-existing entry at <out>/{plan['obstructed']} of the other kind changes the outcome: rc {res['rc']}, stderr {res['stderr'][:300]!r}"))
-            return bad
-        all_res = [("", res)] + [("repeat:", r) for r in res.get("more", [])]
-        for tag, r in all_res:
-            rc_expected = ref["rc"]
-            if var.get("module") == "aas_core_codegen":
-                pass  # `python -m aas_core_codegen` drops the return value of main() (C03's business)
-            elif r["rc"] != rc_expected:
-                bad.append((tag + "rc", f"exit status {r['rc']!r} instead of {rc_expected!r}"))
-            for k in ("stdout", "stderr"):
-                if r[k] != ref[k]:
-                    bad.append((tag + k, f"{k} differs: {_first_diff(ref[k], r[k])}"))
-            pre = plan["pre"] if tag == "" else {}
-            diff = _tree_diff(ref["tree"], r["tree"], pre)
-            if diff:
-                bad.append((tag + "tree", diff))
-        return bad
-
-    def run_variations(self, items: Sequence[Tuple[Case, Dict[str, Any]]]) -> List[Tuple[Dict[str, Any], Dict[str, Any], List[Tuple[str, str]]]]:
-        plans = [self.prepare(c, v) for c, v in items]
-        futs = [self.pool.submit(self.execute, p) for p in plans]
-        out = []
-        for p, f in zip(plans, futs):
-            res = f.result()
-            out.append((p, res, self.judge(p, res)))
-        return out
 
 
 def _first_diff(a: str, b: str) -> str:
@@ -884,199 +678,388 @@ def _tree_diff(ref: Dict[str, str], got: Dict[str, str], pre: Dict[str, str]) ->
     return ""
 
 
-def active_axes(var: Dict[str, Any]) -> List[str]:
-    axes = []
-    for a in AXES:
-        if not _is_default(a, var.get(a)):
-            axes.append(a)
-    if var.get("repeat"):
-        axes.append("repeat")
-    return axes
+def _strip_traceback(stderr: str) -> str:
+    """Frames of an uncaught exception depend on how the program was started; keep the last line."""
+    if "Traceback (most recent call last):" not in stderr:
+        return stderr
+    head, _, tail = stderr.partition("Traceback (most recent call last):")
+    lines = [ln for ln in tail.split("\n") if ln and not ln.startswith(" ")]
+    return head + "<traceback> " + (lines[-1] if lines else "")
 
 
-def single_axis_variants(var: Dict[str, Any]) -> List[Dict[str, Any]]:
-    out = []
-    for a in active_axes(var):
-        v: Dict[str, Any] = {"rseed": var.get("rseed", 0)}
-        v[a] = var.get(a) if a != "repeat" else True
-        if a == "prepop":
-            v["donor"] = var.get("donor")
-        if a in ("listing", "after", "repeat"):
-            v["inproc"] = True
-        out.append(v)
-    return out
+# Axes of a step (the hash seed and the history are properties of the process the step runs in).
+STEP_AXES = ["outloc", "prepop", "listing", "snipcopy"]
 
 
-def report(ctx: Ctx, runner: Runner, plan: Dict[str, Any], res: Dict[str, Any], bad: List[Tuple[str, str]]) -> None:
-    """Attribute a failing variation to one axis (re-running single-axis variants) and record it."""
-    case: Case = plan["case"]
-    var = {k: v for k, v in plan["var"].items()}
-    axes = active_axes(var)
-    blamed = "+".join(axes) if axes else "none"
-    kinds = bad
-    if len(axes) > 1 and not any(k.startswith("obstructed") for k, _ in bad):
-        for v in single_axis_variants(var):
-            (p2, r2, b2) = runner.run_variations([(case, v)])[0]
-            if b2:
-                blamed, var, kinds = "+".join(active_axes(v)), v, b2
-                break
+class Step:
+    def __init__(self, case: Case, var: Dict[str, Any]) -> None:
+        self.case = case
+        self.var = var  # outloc, prepop, donor, listing, snipcopy, rseed
+        self.dir: pathlib.Path = pathlib.Path()
+        self.out: pathlib.Path = pathlib.Path()
+        self.snippets: pathlib.Path = case.snippets
+        self.pre: Dict[str, str] = {}
+        self.obstructed: Optional[str] = None
+        self.res: Dict[str, Any] = {}
+
+    def axes(self) -> List[str]:
+        return [a for a in STEP_AXES if self.var.get(a)]
+
+
+class Batch:
+    """One process: a hash seed, a temp directory, a sequence of steps."""
+
+    def __init__(self, name: str, hashseed: str, steps: List[Step], cli: Optional[str] = None) -> None:
+        self.name = name
+        self.hashseed = hashseed
+        self.steps = steps
+        self.cli = cli  # module name: run the (single) step through the real command line
+        self.dir: pathlib.Path = pathlib.Path()
+
+
+class Runner:
+    def __init__(self, ctx: Ctx) -> None:
+        self.ctx = ctx
+        self.root = ctx.scratch() / "runs"
+        self.root.mkdir(parents=True, exist_ok=True)
+        self.refs: Dict[str, Dict[str, Any]] = {}
+        self.counter = 0
+
+    def _dir(self, tag: str) -> pathlib.Path:
+        self.counter += 1
+        d = self.root / f"{self.counter:05d}-{re.sub(r'[^A-Za-z0-9_.]+', '_', tag)[:40]}"
+        d.mkdir(parents=True)
+        return d
+
+    # ---- preparation (sequential, cheap)
+    def prepare(self, step: Step) -> None:
+        case, var = step.case, step.var
+        ref = self.refs.get(case.id, {"tree": {}})
+        d = step.dir = self._dir(case.id)
+        rng = random.Random(var.get("rseed", 0))
+        step.out = d / ("out" if not var.get("outloc") else "another output-dir with a longer näme/nested/deeper/o")
+        out = step.out
+        if var.get("snipcopy"):
+            step.snippets = d / ("sn_" + var["snipcopy"])
+            copy_snippets(case.snippets, step.snippets, var["snipcopy"], rng)
+        pp = var.get("prepop")
+        if pp:
+            out.mkdir(parents=True)
+            if pp == "stale":
+                donor = var.get("donor")
+                if donor and donor in self.refs and self.refs[donor].get("out"):
+                    src = pathlib.Path(self.refs[donor]["out"])
+                    if src.is_dir():
+                        shutil.copytree(src, out, dirs_exist_ok=True)
+                (out / "STALE.txt").write_text("left over\n")
+                (out / "stale_dir").mkdir(exist_ok=True)
+                (out / "stale_dir" / "old.bin").write_bytes(b"\x00\xff stale")
+                for rel, dg in ref["tree"].items():  # every owned file exists already with other content
+                    if dg.startswith("file:"):
+                        p = out / rel
+                        p.parent.mkdir(parents=True, exist_ok=True)
+                        p.write_text("stale content of " + rel + "\n" * 50)
+            elif pp == "readonly":
+                (out / "READONLY.txt").write_text("left over, read-only\n")
+                os.chmod(out / "READONLY.txt", 0o444)
+                owned = sorted(rel for rel, dg in ref["tree"].items() if dg.startswith("file:"))
+                for rel in owned[:3]:
+                    p = out / rel
+                    p.parent.mkdir(parents=True, exist_ok=True)
+                    p.write_text("read-only stale content\n")
+                    os.chmod(p, 0o444)
+                (out / "ro_dir").mkdir()
+                (out / "ro_dir" / "x").write_text("x")
+            elif pp == "obstruct":
+                dirs = sorted(rel for rel, dg in ref["tree"].items() if dg == "dir")
+                files = sorted(rel for rel, dg in ref["tree"].items() if dg.startswith("file:"))
+                if dirs:
+                    top = dirs[0].rstrip("/").split("/")[0]
+                    (out / top).write_text("a file where a directory is expected\n")
+                    step.obstructed = top
+                elif files:
+                    (out / files[0]).mkdir(parents=True)
+                    step.obstructed = files[0]
+            step.pre = tree_digest(out)
+
+    def _finish(self, step: Step, res: Dict[str, Any]) -> None:
+        res["tree"] = tree_digest(step.out)
+        for k in ("stdout", "stderr"):
+            t = res[k].replace(str(step.out), "<out>")
+            if step.snippets != step.case.snippets:
+                t = t.replace(str(step.snippets), str(step.case.snippets))
+            res[k] = _strip_traceback(t)
+        res["out"] = str(step.out)
+        step.res = res
+
+    def run_batch(self, b: Batch) -> None:
+        tmpdir = b.dir / "tmp"
+        tmpdir.mkdir(parents=True, exist_ok=True)
+        if b.cli:
+            (step,) = b.steps
+            c = step.case
+            cmd = [PY, "-m", b.cli, "--model_path", str(c.model_path), "--snippets_dir", str(step.snippets), "--output_dir", str(step.out), "--target", c.target]
+            proc = subprocess.run(cmd, env=_env(b.hashseed, tmpdir), stdout=subprocess.PIPE, stderr=subprocess.PIPE, timeout=RUN_TIMEOUT, cwd=str(b.dir))
+            self._finish(step, {"rc": proc.returncode, "stdout": proc.stdout.decode("utf-8", "backslashreplace"), "stderr": proc.stderr.decode("utf-8", "backslashreplace")})
+            return
+        spec = b.dir / "spec.json"
+        resf = b.dir / "result.json"
+        spec.write_text(
+            json.dumps(
+                {
+                    "steps": [
+                        {"model": str(st.case.model_path), "snippets": str(st.snippets), "target": st.case.target, "out": str(st.out), "listing": st.var.get("listing")}
+                        for st in b.steps
+                    ]
+                }
+            )
+        )
+        proc = subprocess.run(
+            [PY, str(pathlib.Path(__file__).resolve()), "worker", str(spec), str(resf)],
+            env=_env(b.hashseed, tmpdir),
+            stdout=subprocess.PIPE,
+            stderr=subprocess.PIPE,
+            timeout=RUN_TIMEOUT * 4,
+            cwd=str(b.dir),
+        )
+        if proc.returncode != 0 or not resf.exists():
+            raise RuntimeError(f"in-process worker {b.name} failed (rc {proc.returncode}): {proc.stderr.decode(errors='replace')[-800:]}")
+        for st, res in zip(b.steps, json.loads(resf.read_text())):
+            self._finish(st, res)
+
+    def run_batches(self, batches: Sequence[Batch]) -> None:
+        for b in batches:
+            b.dir = self._dir("batch-" + b.name)
+            for st in b.steps:
+                self.prepare(st)
+        with concurrent.futures.ThreadPoolExecutor(max_workers=WORKERS) as pool:
+            for f in [pool.submit(self.run_batch, b) for b in batches]:
+                f.result()
+
+    # ---- reference: one process, PYTHONHASHSEED=0, fresh output directories, natural listing
+    def references(self, cases: Sequence[Case]) -> None:
+        todo: List[Case] = []
+        for c in cases:
+            if c.id not in self.refs and c.id not in [t.id for t in todo]:
+                todo.append(c)
+        if not todo:
+            return
+        # two processes when there is much to do (halves the wall time)
+        halves = [todo] if len(todo) < 12 else [todo[0::2], todo[1::2]]
+        batches = [Batch(f"ref{i}", "0", [Step(c, {}) for c in h]) for i, h in enumerate(halves)]
+        self.run_batches(batches)
+        for b in batches:
+            for st in b.steps:
+                self.refs[st.case.id] = st.res
+
+    # ---- the oracle proper: the statement of C22 for one (reference, varied run) pair
+    def judge(self, step: Step, cli: Optional[str] = None) -> List[Tuple[str, str]]:
+        case, res = step.case, step.res
+        ref = self.refs[case.id]
+        bad: List[Tuple[str, str]] = []
+        same_outcome = res["rc"] == ref["rc"] and res["stdout"] == ref["stdout"] and res["stderr"] == ref["stderr"]
+        if step.obstructed is not None:
+            if case.failing or same_outcome:
+                return bad  # the obstruction was never reached
+            graceful = res["rc"] == 1 and "<traceback>" not in res["stderr"] and step.obstructed.split("/")[0] in res["stderr"] and res["stderr"].count("\n* ") >= 1
+            return [
+                (
+                    "obstructed-path" if graceful else "obstructed-path-crash",
+                    f"a pre-existing entry <out>/{step.obstructed} of the other kind (file vs directory) changes the outcome: rc {res['rc']!r}, stderr {res['stderr'][:300]!r}",
+                )
+            ]
+        if cli == "aas_core_codegen":
+            pass  # `python -m aas_core_codegen` drops the return value of main() (exit status is C03's business)
+        elif res["rc"] != ref["rc"]:
+            bad.append(("rc", f"exit status {res['rc']!r} instead of {ref['rc']!r}"))
+        for k in ("stdout", "stderr"):
+            if res[k] != ref[k]:
+                bad.append((k, f"{k} differs: {_first_diff(ref[k], res[k])}"))
+        diff = _tree_diff(ref["tree"], res["tree"], step.pre)
+        if diff:
+            bad.append(("tree", diff))
+        return bad
+
+    # ---- attribution of a failing step to one axis, by fresh single-step processes
+    def isolate(self, step: Step, hashseed: str, cli: Optional[str]) -> Tuple[str, Dict[str, Any], List[Tuple[str, str]]]:
+        case = step.case
+        trials: List[Tuple[str, str, Dict[str, Any]]] = [("history", "0", {})]
+        if hashseed not in ("0",):
+            trials.append(("hashseed", hashseed if hashseed != "random" else "random", {}))
+        for a in step.axes():
+            v = {a: step.var[a], "rseed": step.var.get("rseed", 0)}
+            if a == "prepop":
+                v["donor"] = step.var.get("donor")
+            trials.append((a, "0", v))
+        for axis, hs, v in trials:
+            reps = 3 if hs == "random" else 1
+            for _ in range(reps):
+                st = Step(case, v)
+                b = Batch(f"isolate-{axis}", hs, [st])
+                self.run_batches([b])
+                bad = self.judge(st)
+                if bad:
+                    return axis, dict(v, hashseed=hs), bad
+        if cli:
+            st = Step(case, {})
+            self.run_batches([Batch("isolate-cli", "0", [st], cli=cli)])
+            bad = self.judge(st, cli)
+            if bad:
+                return "cli", {"cli": cli}, bad
+        return "combination", dict(step.var, hashseed=hashseed), []
+
+
+def report(ctx: Ctx, runner: Runner, step: Step, batch: Batch, bad: List[Tuple[str, str]]) -> None:
+    case = step.case
     where = case.model if case.failing else case.target
-    for kind, what in kinds[:3]:
-        if kind.startswith("obstructed"):
-            sig = f"C22:prepop:{kind}" + ("" if kind == "obstructed-path" else f":{case.target}")
-        else:
-            sig = f"C22:{blamed}:{kind}:{where}"
-        ctx.fail({"case": case.to_json(), "variation": var}, f"{case.id} under {json.dumps(var, sort_keys=True)}: {what}", sig)
+    var = dict({k: v for k, v in step.var.items() if k != "donor" or step.var.get("prepop") == "stale"}, hashseed=batch.hashseed)
+    if bad and bad[0][0].startswith("obstructed"):
+        kind, what = bad[0]
+        sig = "C22:prepop:obstructed-path" if kind == "obstructed-path" else f"C22:prepop:{kind}:{case.target}"
+        ctx.fail({"case": case.to_json(), "variation": var}, f"{case.id}: {what}", sig)
+        return
+    axis, v2, bad2 = runner.isolate(step, batch.hashseed, batch.cli)
+    if bad2:
+        var, bad = v2, bad2
+    for kind, what in bad[:3]:
+        ctx.fail({"case": case.to_json(), "variation": var, "cli": batch.cli}, f"{case.id} under {json.dumps(var, sort_keys=True)}: {what}", f"C22:{axis}:{kind}:{where}")
 
 
 # --------------------------------------------------------------------------- plan of a run
 
 
-def variations_for(ctx: Ctx, case: Case, k: int, donors: Dict[str, str], thorough: bool) -> List[Dict[str, Any]]:
-    """Variations of one case. ``k`` rotates the choices so that neighbouring cases differ."""
-    rs = ctx.rng.randrange(1 << 30)
-    donor = donors.get(case.target)
-    after = None
-    if donor and donor != case.id:
-        after = donor
-    seeds = ["1", "2", "random"]
-    prepops = ["stale", "readonly"]
-    listings = ["reversed", f"shuffle:{rs % 1000}", "sorted"]
-    if not thorough:
-        return [
-            # (A) the real command line: another hash seed, another location, a used output directory
-            {"hashseed": seeds[k % 3], "outloc": (k // 3) % 2 == 0, "prepop": prepops[k % 2], "donor": donor, "rseed": rs,
-             "module": "aas_core_codegen" if k % 4 == 3 else None},
-            # (B) in one process after another model, other listing order, run twice, cached model
-            {"hashseed": seeds[(k + 1) % 3], "inproc": True, "listing": listings[k % 3], "repeat": True, "after": after, "cache": k % 2 == 0, "rseed": rs},
-        ]
-    out: List[Dict[str, Any]] = [
-        {"hashseed": "1"},
-        {"hashseed": "2"},
-        {"hashseed": "random", "module": "aas_core_codegen"},
-        {"outloc": True},
-        {"prepop": "stale", "donor": donor},
-        {"prepop": "readonly"},
-        {"prepop": "obstruct"},
-        {"cache": True, "hashseed": seeds[k % 3]},
-        {"snipcopy": ["sorted", "reversed", "shuffled"][k % 3], "hashseed": "unset"},
-        {"inproc": True, "listing": "reversed", "hashseed": seeds[k % 3]},
-        {"inproc": True, "listing": f"shuffle:{rs % 1000}", "repeat": True, "after": after, "hashseed": seeds[(k + 1) % 3]},
-        {"hashseed": "random", "outloc": True, "prepop": "stale", "donor": donor, "cache": True},
-    ]
-    for v in out:
-        v["rseed"] = rs
-    return out
-
-
-def failing_variations(ctx: Ctx, k: int, thorough: bool) -> List[Dict[str, Any]]:
-    rs = ctx.rng.randrange(1 << 30)
-    out: List[Dict[str, Any]] = [
-        {"hashseed": ["1", "2", "random"][k % 3], "outloc": True, "rseed": rs},
-        {"inproc": True, "listing": "reversed", "hashseed": "2", "rseed": rs},
-        {"inproc": True, "listing": f"shuffle:{rs % 1000}", "hashseed": "random", "repeat": True, "rseed": rs},
-    ]
+def plan_batches(ctx: Ctx, ok_cases: List[Case], bad_cases: List[Case], donors: Dict[str, str], thorough: bool) -> List[Batch]:
+    rng = ctx.rng
+    seeds = ["1", "2", "random"] + (["3", "random", "unset"] if thorough else [])
+    batches: List[Batch] = []
+    n_ok = len(ok_cases)
+    for bi, hs in enumerate(seeds):
+        steps: List[Step] = []
+        for k, c in enumerate(ok_cases + bad_cases):
+            rs = rng.randrange(1 << 30)
+            donor = donors.get(c.target)
+            if donor == c.id:
+                donor = None
+            heavy = c.model == "aas_core_meta.v3"
+            if heavy and bi >= 3:
+                continue
+            sel = (k + bi) % 3
+            if sel == 0:
+                var = {"outloc": True, "prepop": ["stale", "readonly"][(k // 3) % 2], "donor": donor, "listing": "reversed"}
+            elif sel == 1:
+                var = {"listing": f"shuffle:{rs % 1000}", "snipcopy": ["reversed", "shuffled", "sorted"][(k // 3) % 3]}
+            else:
+                var = {"prepop": "obstruct"} if (k // 3) % 4 == bi % 4 and k < n_ok else {"listing": "sorted", "outloc": (k // 3) % 2 == 1}
+            var["rseed"] = rs
+            steps.append(Step(c, var))
+            if thorough and not heavy:
+                steps.append(Step(c, {"rseed": rs, "listing": ["reversed", f"shuffle:{(rs >> 10) % 1000}"][k % 2]}))
+        # a plain repetition of some cases at the end of the process (module-level state)
+        for c in rng.sample(ok_cases + bad_cases, min(6 if not thorough else 30, len(ok_cases) + len(bad_cases))):
+            if c.model != "aas_core_meta.v3":
+                steps.append(Step(c, {"rseed": 0}))
+        rng.shuffle(steps)
+        if len(steps) > 150:  # split long batches to use the cores
+            half = len(steps) // 2
+            batches.append(Batch(f"seed{hs}-{bi}a", hs, steps[:half]))
+            batches.append(Batch(f"seed{hs}-{bi}b", hs, steps[half:]))
+        else:
+            batches.append(Batch(f"seed{hs}-{bi}", hs, steps))
+    # the real command line (argparse, module start-up): a few single-step processes
+    cli_cases = [c for c in ok_cases if c.model == "multi" and c.target in ("python", "xsd")] + [c for c in bad_cases if (c.model, c.target) in (("bad_keys", "python"), ("missing_snippets", "cpp"), ("two_errors", "jsonschema"))]
     if thorough:
-        out += [
-            {"hashseed": "random", "rseed": rs},
-            {"snipcopy": "reversed", "rseed": rs},
-            {"snipcopy": "shuffled", "hashseed": "1", "rseed": rs},
-            {"inproc": True, "listing": "sorted", "rseed": rs},
-            {"prepop": "stale", "rseed": rs},
-        ]
-    return out
-
-
-def _resolve_after(runner: Runner, cases_by_id: Dict[str, Case], var: Dict[str, Any]) -> Dict[str, Any]:
-    a = var.get("after")
-    if isinstance(a, str):
-        c = cases_by_id.get(a)
-        var = dict(var)
-        var["after"] = {"model_path": str(c.model_path), "snippets": str(c.snippets), "target": c.target, "id": c.id} if c else None
-    return var
+        cli_cases = cli_cases + [c for c in ok_cases if c.model in ("multi", "list_of_classes", "aas_core_meta.v3") and c not in cli_cases]
+    for k, c in enumerate(cli_cases):
+        mod = "aas_core_codegen" if k % 3 == 2 else "aas_core_codegen.main"
+        var = {"rseed": k, "outloc": k % 2 == 1}
+        if k % 4 == 0 and not c.failing:
+            var.update({"prepop": "stale", "donor": donors.get(c.target) if donors.get(c.target) != c.id else None})
+        batches.append(Batch(f"cli-{k}", ["random", "1", "unset"][k % 3], [Step(c, var)], cli=mod))
+    return batches
 
 
 def oracle(ctx: Ctx) -> None:
     thorough = ctx.tier == "thorough"
     runner = Runner(ctx)
-    try:
-        # ---- corpus first: recorded (case, variation) pairs
-        recorded = [c for c in corpus(ID) if "case" in c and "variation" in c]
-        # ---- cases
-        if thorough:
-            fixt = fixture_cases(ctx, None, with_v3=True)
-        else:
-            names = small_models()
-            chosen = ["list_of_classes"] if "list_of_classes" in names else names[:1]
-            rest = [n for n in names if n not in chosen]
-            if rest:
-                chosen.append(ctx.rng.choice(rest))
-            fixt = fixture_cases(ctx, chosen)
-        ok_cases = multi_cases() + fixt
-        bad_cases = failing_cases(ctx)
-        cases = ok_cases + bad_cases
-        by_id = {c.id: c for c in cases}
-        for r in recorded:
-            c = case_from_json(r["case"])
-            if c.id not in by_id:
-                by_id[c.id] = c
-                cases.append(c)
-        t0 = time.time()
-        runner.references(cases)
-        ctx.extra_cov["reference_runs"] = len(cases)
-        ctx.extra_cov["reference_wall_s"] = round(time.time() - t0, 1)
-        for c in cases:
-            ref = runner.refs[c.id]
-            ok = ref["rc"] == 0 and ref["stdout"].startswith("Code generated to: <out>") and len(ref["tree"]) > 0
-            ctx.hit("reference:generated" if ok else "reference:rejected")
-            if ok == c.failing:
-                ctx.note(f"reference run of {c.id} was expected to {'fail' if c.failing else 'succeed'}: rc {ref['rc']}, stderr {ref['stderr'][:200]!r}")
-                ctx.hit("reference:unexpected-outcome")
-            if c.failing:
-                nerr = ref["stderr"].count("\n* ") + ref["stderr"].count("\n  * ")
-                ctx.hit("failing-input:>=2-errors" if nerr >= 2 else "failing-input:<2-errors")
-        # a donor (another model's output for the same target) per target, for stale directories / `after`
-        donors: Dict[str, str] = {}
-        for c in ok_cases:
-            if c.model != "multi" and c.target not in donors:
-                donors[c.target] = c.id
-        items: List[Tuple[Case, Dict[str, Any]]] = []
-        for r in recorded:
-            items.append((by_id[case_from_json(r["case"]).id], dict(r["variation"], _stream="corpus")))
-        for k, c in enumerate(ok_cases):
-            d = dict(donors)
-            if d.get(c.target) == c.id:
-                d[c.target] = multi_cases()[TARGETS.index(c.target)].id
-            heavy = c.model == "aas_core_meta.v3"
-            vs = variations_for(ctx, c, k, d, thorough and not heavy)
-            for v in vs:
-                items.append((c, dict(_resolve_after(runner, by_id, v), _stream="fixture")))
-        for k, c in enumerate(bad_cases):
-            for v in failing_variations(ctx, k, thorough):
-                items.append((c, dict(v, _stream="failing-input")))
-        # listing orders really differ? (evidence only)
-        ml = multi_cases()[TARGETS.index("python")]
-        ctx.extra_cov["natural_listing_of_multi_python_snippets"] = natural_listing(ml.snippets)[:12]
-        t1 = time.time()
-        results = runner.run_variations([(c, {k: v for k, v in var.items() if k != "_stream"}) for c, var in items])
-        ctx.extra_cov["variation_runs"] = len(items)
-        ctx.extra_cov["variation_wall_s"] = round(time.time() - t1, 1)
-        for (c, var), (plan, res, bad) in zip(items, results):
-            stream = var.get("_stream", "fixture")
-            key = (c.id, json.dumps({k: v for k, v in var.items() if k not in ("rseed", "_stream")}, sort_keys=True, default=str))
-            ctx.count(key, nontrivial=True, stream="oracle:" + stream)
-            for a in active_axes(var):
-                ctx.hit("axis:" + a)
+    recorded = [c for c in corpus(ID) if "case" in c and "variation" in c]
+    if thorough:
+        fixt = fixture_cases(ctx, None, with_v3=True)
+    else:
+        names = small_models()
+        chosen = ["list_of_classes"] if "list_of_classes" in names else names[:1]
+        rest = [n for n in names if n not in chosen]
+        if rest:
+            chosen.append(ctx.rng.choice(rest))
+        fixt = fixture_cases(ctx, chosen)
+    ok_cases = multi_cases() + fixt
+    bad_cases = failing_cases(ctx)
+    cases = ok_cases + bad_cases
+    by_id = {c.id: c for c in cases}
+    for r in recorded:
+        c = case_from_json(r["case"])
+        if c.id not in by_id:
+            by_id[c.id] = c
+            cases.append(c)
+    t0 = time.time()
+    runner.references(cases)
+    ctx.extra_cov["reference_runs"] = len(cases)
+    ctx.extra_cov["reference_wall_s"] = round(time.time() - t0, 1)
+    for c in cases:
+        ref = runner.refs[c.id]
+        ok = ref["rc"] == 0 and ref["stdout"].startswith("Code generated to: <out>") and len(ref["tree"]) > 0
+        ctx.hit("reference:generated" if ok else ("reference:crashed" if "<traceback>" in ref["stderr"] or str(ref["rc"]).startswith("crash") else "reference:rejected"))
+        if ok == c.failing:
+            ctx.note(f"reference run of {c.id} was expected to {'fail' if c.failing else 'succeed'}: rc {ref['rc']}, stderr {ref['stderr'][:200]!r}")
+            ctx.hit("reference:unexpected-outcome")
+        if c.failing:
+            nerr = ref["stderr"].count("\n* ") + ref["stderr"].count("\n    At line")
+            ctx.hit("failing-input:>=2-errors" if nerr >= 2 else "failing-input:<2-errors")
+    donors: Dict[str, str] = {}
+    for c in ok_cases:
+        if c.model != "multi" and c.target not in donors:
+            donors[c.target] = c.id
+    batches: List[Batch] = []
+    # corpus first: recorded (case, variation) pairs, each in a fresh process
+    for i, r in enumerate(recorded):
+        c = by_id[case_from_json(r["case"]).id]
+        v = dict(r["variation"])
+        hs = str(v.pop("hashseed", "0"))
+        v.pop("cli", None)
+        batches.append(Batch(f"corpus-{i}", hs, [Step(c, v)], cli=r.get("cli")))
+    n_corpus = len(batches)
+    batches += plan_batches(ctx, ok_cases, bad_cases, donors, thorough)
+    ml = multi_cases()[TARGETS.index("python")]
+    ctx.extra_cov["natural_listing_of_multi_python_snippets"] = natural_listing(ml.snippets)[:12]
+    t1 = time.time()
+    runner.run_batches(batches)
+    ctx.extra_cov["variation_processes"] = len(batches)
+    ctx.extra_cov["variation_runs"] = sum(len(b.steps) for b in batches)
+    ctx.extra_cov["variation_wall_s"] = round(time.time() - t1, 1)
+    reported = set()
+    for bi, b in enumerate(batches):
+        stream = "corpus" if bi < n_corpus else ("cli" if b.cli else "in-process")
+        for pos, st in enumerate(b.steps):
+            c = st.case
+            key = (c.id, b.hashseed, json.dumps({k: v for k, v in st.var.items() if k != "rseed"}, sort_keys=True, default=str), b.cli)
+            ctx.count(key, nontrivial=True, stream="oracle:" + stream + (":failing-input" if c.failing else ""))
+            for a in st.axes():
+                ctx.hit("axis:" + a + (":" + str(st.var[a]).split(":")[0] if a in ("prepop", "listing", "snipcopy") else ""))
+            ctx.hit("axis:hashseed:" + b.hashseed)
+            if pos > 0:
+                ctx.hit("axis:history(not first in its process)")
+            if st.res.get("cache_before"):
+                ctx.hit("axis:temp-dir-holds-a-model-cache")
             ctx.hit("target:" + c.target)
-            if plan["obstructed"] is not None:
-                ctx.hit("prepop:obstructed")
             ctx.traces_validated += 1
-            if len(ctx.samples) < 6:
-                ctx.sample({"case": c.id, "variation": {k: v for k, v in var.items() if k != "after"}, "rc": res["rc"], "files": len(res["tree"]), "verdict": bad})
+            bad = runner.judge(st, b.cli)
+            if len(ctx.samples) < 6 and (pos % 17 == 0):
+                ctx.sample({"case": c.id, "hashseed": b.hashseed, "variation": st.var, "cli": b.cli, "rc": st.res["rc"], "files": len(st.res["tree"]), "verdict": bad})
             if bad:
-                report(ctx, runner, plan, res, bad)
-    finally:
-        runner.close()
+                dedup = (c.id, tuple(st.axes()), b.hashseed, bad[0][0])
+                if dedup in reported or len(reported) > 12:
+                    continue
+                reported.add(dedup)
+                report(ctx, runner, st, b, bad)
 
 
 # --------------------------------------------------------------------------- correspondence
@@ -1152,7 +1135,7 @@ def impl_definition_keys(class_names: List[str]) -> Any:
         from aas_core_codegen.common import Stripped
         from aas_core_codegen.specific_implementations import ImplementationKey
 
-        spec = {ImplementationKey("schema_base.json"): Stripped('{"$schema": "x", "definitions": {}}')}
+        spec = {ImplementationKey("schema_base.json"): Stripped('{"$schema": "x"}')}
         code, errors = js_main.generate(symbol_table=ir, spec_impls=spec, fix_pattern=lambda p: p)
         if errors is not None:
             return "rejected"
@@ -1248,7 +1231,7 @@ def correspond(ctx: Ctx) -> None:
         # the model is given the emitted keys in *declaration-dependent* order: rotate them
         scr = list(keys)
         ctx.rng.shuffle(scr)
-        want = ctx.model([f"emit {enc_list(scr)}"])[0]
+        want = ctx.model([f"emit {enc_list(scr)}"])[0].split(" ")[0]
         if enc_list(keys) != want:
             ctx.disagree("definitions", {"classes": names}, keys, want)
             # property-level reading: the same classes declared in reverse order must give the same schema keys
@@ -1318,16 +1301,16 @@ def replay(ctx: Ctx, data: Dict[str, Any]) -> Any:
         a, b = impl_definition_keys(inp["classes"]), impl_definition_keys(list(reversed(inp["classes"])))
         return {"impl": a, "impl_reversed_declaration": b, "oracle": "same" if a == b else "DIFFERENT"}
     case = case_from_json(inp["case"])
-    var = inp["variation"]
+    var = dict(inp["variation"])
+    hs = str(var.pop("hashseed", "0"))
+    cli = var.pop("cli", None) or inp.get("cli")
     runner = Runner(ctx)
-    try:
-        runner.references([case])
-        (plan, res, bad) = runner.run_variations([(case, var)])[0]
-        ref = runner.refs[case.id]
-        return {
-            "reference": {"rc": ref["rc"], "stdout": ref["stdout"], "stderr": ref["stderr"], "files": len(ref["tree"])},
-            "variation": {"rc": res["rc"], "stdout": res["stdout"], "stderr": res["stderr"], "files": len(res["tree"])},
-            "oracle": bad,
-        }
-    finally:
-        runner.close()
+    runner.references([case])
+    st = Step(case, var)
+    runner.run_batches([Batch("replay", hs, [st], cli=cli)])
+    ref = runner.refs[case.id]
+    return {
+        "reference": {"rc": ref["rc"], "stdout": ref["stdout"], "stderr": ref["stderr"], "files": len(ref["tree"])},
+        "variation": {"rc": st.res["rc"], "stdout": st.res["stdout"], "stderr": st.res["stderr"], "files": len(st.res["tree"])},
+        "oracle": runner.judge(st, cli),
+    }
